@@ -179,7 +179,13 @@ func c21Alphabet(m *sx.Model, stack string) []sx.Op {
 	}
 	for _, bn := range m.BucketNames() {
 		b := m.Buckets[bn]
-		if len(b.Keys) == 0 {
+		pendingUpload := false
+		for _, u := range m.Uploads {
+			if u.B == bn {
+				pendingUpload = true // left behind by a multipart macro whose conditional Complete failed
+			}
+		}
+		if len(b.Keys) == 0 && !pendingUpload {
 			ops = append(ops, sx.Op{Kind: "DeleteBucket", B: bn})
 		}
 		if b.Versioning == "" && bn == "bka" {
